@@ -306,6 +306,8 @@ def run(ctx):
                                      "a CAS failed or a trywait failed in the implementation trace"})
         if (not ok or ctx.failures) and not ctx.violations:
             search(ctx, exe)
+    from vf.props import C13
+    C13.as_layer(ctx, "the semaphore's waiter queue (include/mpmc_fifo.h is an anchor of C06)")
     core.init_contract(ctx, ["fiber_semaphore"])  # rt/h_init.c: real init on dirty memory
     core.finish(ctx, extra_assumptions=ASSUME)
 
@@ -327,6 +329,9 @@ def search(ctx, exe):
 
 
 def replay(ctx, payload):
+    if str(payload.get("harness", "")).split("+")[0] == "mpmc":
+        from vf.props import C13
+        return C13.replay(ctx, payload)
     if payload.get("harness") == "h_init":
         return core.replay_init(ctx, payload)
     exe = build(ctx)
